@@ -67,7 +67,8 @@ def native_step_replay(doc, base, wd, trace, nested, nb):
             return False, 'no pre-state in the trace; native search timed out', None
     cfg = hexbytes(trace, 'wit_pre_config', nb)
     hist = hexbytes(trace, 'wit_pre_history', nb)
-    args = [exe, 'pre', str(flags), cfg, hist, '14'] + (['skiphist'] if nested else [])
+    inv = hexbytes(trace, 'wit_pre_invocations', nb)
+    args = [exe, 'pre', str(flags), cfg, hist, '14'] + (['skiphist'] if nested else []) + [inv]
     try:
         p = subprocess.run(args, capture_output=True, text=True, env=env, timeout=300, errors='replace')
         out = (p.stdout + p.stderr).strip()
